@@ -29,6 +29,7 @@ EXPLANATION = ("a: contains_timestamp, events_in_range, the sliding filter of Wi
 FLOORS = {"membership_predicates": 4, "aligned_starts": 3, "aggregates": 4}
 EXPLANATION += ' c (added): in record the eviction of out-of-window events dominates the retention-cap loop (the cap may only cut in-window events).'
 EXPLANATION += " e (added): an aggregate reads no distinguished element of the window (front / back / get / index): its value is a function of the multiset of values; the combining function may be passed by name (`reduce(f64::min)`). a (added): `(start..end).contains(&t)` is accepted as half-open membership, `..=` is a violation. g (added): the probe may be `windows.iter_mut().any(|w| w.add_event(..))`; the new window's start is judged by meaning (every arm computed from the event timestamp, the tumbling one `(t / w) * w`)."
+EXPLANATION += " c (added): record's store to start_time is unconditional (not `if let Some(s) = now.checked_sub(d)`)."
 
 TW = "streaming::window::TimeWindow"
 
